@@ -381,7 +381,10 @@ impl<T: fmt::Debug, const N: usize> fmt::Debug for FixedCircularQueue<T, N> {
         let head = self.head.load(Ordering::Acquire);
         let tail = self.tail.load(Ordering::Acquire);
 
-        if head <= tail {
+        // head == tail means empty or completely full; the count tells them apart
+        if self.count.load(Ordering::Acquire) == 0 {
+            // nothing to print
+        } else if head < tail {
             for i in head..tail {
                 // SAFETY: All elements between head and tail are initialized
                 list.entry(unsafe { self.buffer[i].assume_init_ref() });
